@@ -56,6 +56,7 @@ Definition of_cmp (o : outcome bool) (neg : bool) : sres status :=
   match o with
   | Done b => SOk (if xorb b neg then PASS else FAIL)
   | Err ENotComparable => SOk FAIL          (* incomparable: FAIL, also under negation *)
+  | Err ERegex => SOut                      (* a regular expression that fails at run time: not a documented case *)
   | Err _ => SUndef
   | _ => SOut
   end.
@@ -225,235 +226,254 @@ Definition and_body {T} (f : T -> sres status) (cnf : list (list T)) : sres stat
 
 (* ---------------------------------------------------------------- the evaluator (fuel only bounds nesting) *)
 
-Fixpoint run (n : nat) : (senv -> query -> sres (list sval))               (* a query in the current scope *)
-                       * (senv -> list (list guard_clause) -> sres status) (* a body / filter condition *)
-                       * (string -> sres status) :=                        (* a rule by name *)
-  match n with
-  | O => (fun _ _ => SOut, fun _ _ => SOut, fun _ => SOut)
-  | S n' =>
-    let '(q_rec, cnf_rec, rule_rec) := run n' in
+(* the three mutually dependent entry points; written in open-recursion style (bodies over a record of callees, one
+   Fixpoint on the fuel) so that the refinement proof (Proofs/RefineProps.v) can treat each body on its own *)
+Record sev := mkSev {
+  sv_query : senv -> query -> sres (list sval);               (* a query in the current scope *)
+  sv_cnf : senv -> list (list guard_clause) -> sres status;   (* a body / filter condition *)
+  sv_rule : string -> sres status }.                          (* a rule by name *)
 
-    (* walk the remaining parts from value v; prev is the part just before *)
-    let walk :=
-      fix walk (env : senv) (prev : option query_part) (q : query) (v : pv) {struct q} : sres (list sval) :=
-        match q with
-        | [] => SOk [SV false v]
-        | part :: rest =>
-            let next := walk env (Some part) rest in
-            match part with
-            | QThis => next v
-            | QKey k =>
-                match key_variable k with
-                | Some _ => SOut
-                | None =>
-                    match parse_i32 k with
-                    | Some idx =>
-                        match v with
-                        | PList _ l => match nth_error l (Z.to_nat (Z.abs idx)) with Some e => next e | None => SOk [SMiss] end
-                        | _ => SOk [SMiss]
-                        end
-                    | None =>
-                        match v with
-                        | PMap _ _ vals => match assoc k vals with Some x => next x | None => SOk [SMiss] end
-                        | _ => SOk [SMiss]
-                        end
-                    end
-                end
-            | QIndex i =>
-                match v with
-                | PList _ l => match nth_error l (Z.to_nat (Z.abs i)) with Some e => next e | None => SOk [SMiss] end
-                | _ => SOk [SMiss]
-                end
-            | QAllValues None =>
-                match v with
-                | PList _ [] => SOk [SMiss]
-                | PList _ l => sflat next l
-                | PMap _ _ [] => SOk [SMiss]
-                | PMap _ _ vals => sflat next (map snd vals)
-                | _ => next v
-                end
-            | QAllIndices None =>
-                match v with
-                | PList _ [] => SOk [SMiss]
-                | PList _ l => sflat next l
-                | _ => next v
-                end
-            | QFilter None cnf =>
-                let keep (e : pv) : sres (list sval) :=
-                  st <~ cnf_rec ((e, []) :: env) cnf ;;
-                  match st with PASS => next e | _ => SOk [] end in
-                match v with
-                | PList _ l => sflat keep l
-                | PMap _ _ vals =>
-                    match prev with
-                    | Some (QAllValues _) | Some (QAllIndices _) => keep v
-                    | Some (QKey _) => sflat keep (map snd vals)
-                    | _ => SOut
-                    end
-                | _ =>
-                    match prev with
-                    | Some (QAllIndices _) => keep v
-                    | Some _ => SOk [SMiss]
-                    | None => SOut
-                    end
-                end
-            | _ => SOut
-            end
-        end in
+Definition not_miss (x : sval) : bool := match x with SMiss => false | _ => true end.
 
-    (* a variable: found in the innermost scope that defines it, evaluated against that scope *)
-    let resolve :=
-      fix resolve (env : senv) (name : string) {struct env} : sres (list sval) :=
-        match env with
-        | [] => SUndef
-        | (v, lets) :: outer =>
-            match count_name name lets with
-            | O => resolve outer name
-            | S O =>
-                match find_let name lets with
-                | Some (LValue lit) => SOk [SV true lit]
-                | Some (LAccess aq) =>
-                    r <~ q_rec env (aq_query aq) ;;
-                    SOk (if aq_all aq then r else filter (fun x => match x with SMiss => false | _ => true end) r)
-                | _ => SOut
-                end
-            | _ => SOut
-            end
-        end in
+Section Bodies.
+Variable r : sev.
 
-    let query (env : senv) (q : query) : sres (list sval) :=
-      match q with
-      | [] => SOut
-      | QKey k :: rest =>
+(* walk the remaining parts from value v; prev is the part just before *)
+Fixpoint walk (env : senv) (prev : option query_part) (q : query) (v : pv) {struct q} : sres (list sval) :=
+  match q with
+  | [] => SOk [SV false v]
+  | part :: rest =>
+      let next := walk env (Some part) rest in
+      match part with
+      | QThis => next v
+      | QKey k =>
           match key_variable k with
-          | Some name =>
-              vals <~ resolve env name ;;
-              let rest' := match rest with QAllIndices _ :: r => r | _ => rest end in
-              match rest' with
-              | [] => SOk vals
-              | _ =>
-                  sflat (fun x => match x with
-                                  | SMiss => SOk [SMiss]
-                                  | SV _ v => walk ((v, []) :: env) (Some (QKey k)) rest' v
-                                  end) vals
+          | Some _ => SOut
+          | None =>
+              match parse_i32 k with
+              | Some idx =>
+                  match v with
+                  | PList _ l => match nth_error l (Z.to_nat (Z.abs idx)) with Some e => next e | None => SOk [SMiss] end
+                  | _ => SOk [SMiss]
+                  end
+              | None =>
+                  match v with
+                  | PMap _ _ vals => match assoc k vals with Some x => next x | None => SOk [SMiss] end
+                  | _ => SOk [SMiss]
+                  end
               end
-          | None => v <~ cur_value env ;; walk env None q v
           end
-      | _ => v <~ cur_value env ;; walk env None q v
-      end in
-
-    let access (env : senv) (c : access_clause) : sres status :=
-      match c with
-      | GuardAccessClause aq (o, neg) w _ prefix_not =>
-          lhs <~ query env (aq_query aq) ;;
-          if is_unary o then
-            let last_is_filter := match rev (aq_query aq) with p :: _ => is_filter_part p | [] => false end in
-            let bare_variable := match aq_query aq with [p] => part_is_variable p | _ => false end in
-            if cmp_op_eqb o OEmpty && (last_is_filter || bare_variable) then
-              (* `empty` on a filtered selection or a bare variable tests the result set *)
-              match lhs with
-              | [] => SOk (if xorb (negb neg) prefix_not then PASS else FAIL)
-              | _ =>
-                  SOk (aggregate (aq_all aq)
-                         (map (fun x => let b := match x with SMiss => true | SV _ v => is_null v end in
-                                        if xorb (xorb b neg) prefix_not then PASS else FAIL) lhs))
+      | QIndex i =>
+          match v with
+          | PList _ l => match nth_error l (Z.to_nat (Z.abs i)) with Some e => next e | None => SOk [SMiss] end
+          | _ => SOk [SMiss]
+          end
+      | QAllValues None =>
+          match v with
+          | PList _ [] => SOk [SMiss]
+          | PList _ l => sflat next l
+          | PMap _ _ [] => SOk [SMiss]
+          | PMap _ _ vals => sflat next (map snd vals)
+          | _ => next v
+          end
+      | QAllIndices None =>
+          match v with
+          | PList _ [] => SOk [SMiss]
+          | PList _ l => sflat next l
+          | _ => next v
+          end
+      | QFilter None cnf =>
+          let keep (e : pv) : sres (list sval) :=
+            st <~ sv_cnf r ((e, []) :: env) cnf ;;
+            match st with PASS => next e | _ => SOk [] end in
+          match v with
+          | PList _ l => sflat keep l
+          | PMap _ _ vals =>
+              match prev with
+              | Some (QAllValues _) | Some (QAllIndices _) => keep v
+              | Some (QKey _) => sflat keep (map snd vals)
+              | _ => SOut
               end
-            else
-              match lhs with
-              | [] => SOk SKIP
-              | _ =>
-                  sts <~ smap (fun x => b <~ unary_value o x ;;
-                                         SOk (if xorb (xorb b neg) prefix_not then PASS else FAIL)) lhs ;;
-                  SOk (aggregate (aq_all aq) sts)
-              end
-          else
-            (* the right-hand side: a literal, or a bare variable bound to a literal *)
-            rhs <~ match w with
-                   | Some (LValue r) => SOk r
-                   | Some (LAccess (AccessQuery [QKey k] _)) =>
-                       match key_variable k with
-                       | Some name =>
-                           vals <~ resolve env name ;;
-                           match vals with [SV true lit] => SOk lit | _ => SOut end
-                       | None => SOut
-                       end
-                   | _ => SOut
-                   end ;;
-            let neg' := xorb neg prefix_not in
-            match lhs with
-            | [] => SOk SKIP
-            | [SV true l] => sts <~ check_literal o neg' l rhs ;; SOk (aggregate (aq_all aq) sts)
-            | _ => sts <~ sflat (fun x => check_value o neg' x rhs) lhs ;; SOk (aggregate (aq_all aq) sts)
-            end
-      end in
-
-    let named (n : named_clause) : sres status :=
-      match n with
-      | GuardNamedRuleClause dep neg _ =>
-          st <~ rule_rec dep ;;
-          SOk (match st with PASS => if neg then FAIL else PASS | _ => if neg then PASS else FAIL end)
-      end in
-
-    let when_clause (env : senv) (w : when_clause) : sres status :=
-      match w with
-      | WClause c => access env c
-      | WNamedRule n => named n
-      | WParameterizedNamedRule _ _ => SOut
-      end in
-
-    let block (env : senv) (b : gblock) : sres status :=
-      match b with
-      | Block lets cnf => v <~ cur_value env ;; cnf_rec ((v, lets) :: env) cnf
-      end in
-
-    let clause (env : senv) (g : guard_clause) : sres status :=
-      match g with
-      | GClause c => access env c
-      | GNamedRule n => named n
-      | GParameterizedNamedRule _ _ => SOut
-      | GBlockClause aq b not_empty =>
-          vals <~ query env (aq_query aq) ;;
-          match vals with
-          | [] => SOk (if not_empty then FAIL else SKIP)
           | _ =>
-              sts <~ smap (fun x => match x with
-                                    | SMiss => SOk FAIL
-                                    | SV _ v => block ((v, []) :: env) b
-                                    end) vals ;;
-              SOk (if aq_all aq then body_status sts else some_status sts)
+              match prev with
+              | Some (QAllIndices _) => keep v
+              | Some _ => SOk [SMiss]
+              | None => SOut
+              end
           end
-      | GWhenBlock conds b =>
-          c <~ and_body (when_clause env) conds ;;
-          match c with PASS => block env b | _ => SOk SKIP end
-      end in
-
-    let cnf (env : senv) (c : list (list guard_clause)) : sres status := and_body (clause env) c in
-
-    let file_env : senv := [(doc, rf_lets prog)] in
-    let rule_clause (env : senv) (c : rule_clause) : sres status :=
-      match c with
-      | RClause g => clause env g
-      | RWhenBlock conds b =>
-          c <~ and_body (when_clause env) conds ;;
-          match c with PASS => block env b | _ => SOk SKIP end
-      | RTypeBlock _ _ _ _ => SOut
-      end in
-    let rule_eval (x : rule) : sres status :=
-      go <~ match rule_conditions x with
-            | Some conds => c <~ and_body (when_clause file_env) conds ;; SOk (status_eqb c PASS)
-            | None => SOk true
-            end ;;
-      if go then and_body (rule_clause ((doc, rule_lets x) :: file_env)) (rule_cnf x) else SOk SKIP in
-    let rule_status (name : string) : sres status :=
-      match filter (fun x => String.eqb (rule_name x) name) (rf_rules prog) with
-      | [x] => rule_eval x
-      | [] => SUndef
       | _ => SOut
-      end in
-    (query, cnf, rule_status)
+      end
   end.
 
-Definition spec_rule (n : nat) (name : string) : sres status := snd (run n) name.
+(* a variable: found in the innermost scope that defines it, evaluated against that scope *)
+Fixpoint resolve (env : senv) (name : string) {struct env} : sres (list sval) :=
+  match env with
+  | [] => SUndef
+  | (v, lets) :: outer =>
+      match count_name name lets with
+      | O => resolve outer name
+      | S O =>
+          match find_let name lets with
+          | Some (LValue lit) => SOk [SV true lit]
+          | Some (LAccess aq) =>
+              res <~ sv_query r env (aq_query aq) ;;
+              SOk (if aq_all aq then res else filter not_miss res)
+          | _ => SOut
+          end
+      | _ => SOut
+      end
+  end.
+
+(* a query: from the current value, or - when it starts with %name - from every value of the variable; the `[*]` that
+   follows a variable stands for "each of its values", so a filter written directly after %name tests each value *)
+Definition query_s (env : senv) (q : query) : sres (list sval) :=
+  match q with
+  | [] => SOut
+  | QKey k :: rest =>
+      match key_variable k with
+      | Some name =>
+          vals <~ resolve env name ;;
+          let '(prev, rest') := match rest with
+                                | QAllIndices n :: rr => (QAllIndices n, rr)
+                                | _ => (QKey k, rest)
+                                end in
+          match rest' with
+          | [] => SOk vals
+          | _ =>
+              sflat (fun x => match x with
+                              | SMiss => SOk [SMiss]
+                              | SV _ v => walk ((v, []) :: env) (Some prev) rest' v
+                              end) vals
+          end
+      | None => v <~ cur_value env ;; walk env None q v
+      end
+  | _ => v <~ cur_value env ;; walk env None q v
+  end.
+
+Definition polarity (b neg prefix_not : bool) : status := if xorb (xorb b neg) prefix_not then PASS else FAIL.
+
+Definition access_s (env : senv) (c : access_clause) : sres status :=
+  match c with
+  | GuardAccessClause aq (o, neg) w _ prefix_not =>
+      lhs <~ query_s env (aq_query aq) ;;
+      if is_unary o then
+        let last_is_filter := match rev (aq_query aq) with p :: _ => is_filter_part p | [] => false end in
+        let bare_variable := match aq_query aq with [p] => part_is_variable p | _ => false end in
+        if cmp_op_eqb o OEmpty && (last_is_filter || bare_variable) then
+          (* `empty` on a filtered selection or a bare variable tests the result set *)
+          match lhs with
+          | [] => SOk (if xorb (negb neg) prefix_not then PASS else FAIL)
+          | _ =>
+              SOk (aggregate (aq_all aq)
+                     (map (fun x => let b := match x with SMiss => true | SV _ v => is_null v end in
+                                    polarity b neg prefix_not) lhs))
+          end
+        else
+          match lhs with
+          | [] => SOk SKIP
+          | _ =>
+              sts <~ smap (fun x => b <~ unary_value o x ;; SOk (polarity b neg prefix_not)) lhs ;;
+              SOk (aggregate (aq_all aq) sts)
+          end
+      else
+        (* the right-hand side: a literal, or a bare variable bound to a literal *)
+        rhs <~ match w with
+               | Some (LValue rv) => SOk rv
+               | Some (LAccess (AccessQuery [QKey k] _)) =>
+                   match key_variable k with
+                   | Some name =>
+                       vals <~ resolve env name ;;
+                       match vals with [SV true lit] => SOk lit | _ => SOut end
+                   | None => SOut
+                   end
+               | _ => SOut
+               end ;;
+        let neg' := xorb neg prefix_not in
+        match lhs with
+        | [] => SOk SKIP
+        | [SV true l] => sts <~ check_literal o neg' l rhs ;; SOk (aggregate (aq_all aq) sts)
+        | _ => sts <~ sflat (fun x => check_value o neg' x rhs) lhs ;; SOk (aggregate (aq_all aq) sts)
+        end
+  end.
+
+Definition named_s (n : named_clause) : sres status :=
+  match n with
+  | GuardNamedRuleClause dep neg _ =>
+      st <~ sv_rule r dep ;;
+      SOk (match st with PASS => if neg then FAIL else PASS | _ => if neg then PASS else FAIL end)
+  end.
+
+Definition when_clause_s (env : senv) (w : when_clause) : sres status :=
+  match w with
+  | WClause c => access_s env c
+  | WNamedRule n => named_s n
+  | WParameterizedNamedRule _ _ => SOut
+  end.
+
+Definition block_s (env : senv) (b : gblock) : sres status :=
+  match b with
+  | Block lets cnf => v <~ cur_value env ;; sv_cnf r ((v, lets) :: env) cnf
+  end.
+
+Definition when_block_s (env : senv) (conds : when_conditions) (b : gblock) : sres status :=
+  c <~ and_body (when_clause_s env) conds ;;
+  match c with PASS => block_s env b | _ => SOk SKIP end.
+
+Definition clause_s (env : senv) (g : guard_clause) : sres status :=
+  match g with
+  | GClause c => access_s env c
+  | GNamedRule n => named_s n
+  | GParameterizedNamedRule _ _ => SOut
+  | GBlockClause aq b not_empty =>
+      vals <~ query_s env (aq_query aq) ;;
+      match vals with
+      | [] => SOk (if not_empty then FAIL else SKIP)
+      | _ =>
+          sts <~ smap (fun x => match x with
+                                | SMiss => SOk FAIL
+                                | SV _ v => block_s ((v, []) :: env) b
+                                end) vals ;;
+          SOk (if aq_all aq then body_status sts else some_status sts)
+      end
+  | GWhenBlock conds b => when_block_s env conds b
+  end.
+
+Definition cnf_s (env : senv) (c : list (list guard_clause)) : sres status := and_body (clause_s env) c.
+
+Definition file_env : senv := [(doc, rf_lets prog)].
+
+Definition rule_clause_s (env : senv) (c : rule_clause) : sres status :=
+  match c with
+  | RClause g => clause_s env g
+  | RWhenBlock conds b => when_block_s env conds b
+  | RTypeBlock _ _ _ _ => SOut
+  end.
+
+Definition rule_eval_s (x : rule) : sres status :=
+  go <~ match rule_conditions x with
+        | Some conds => c <~ and_body (when_clause_s file_env) conds ;; SOk (status_eqb c PASS)
+        | None => SOk true
+        end ;;
+  if go then and_body (rule_clause_s ((doc, rule_lets x) :: file_env)) (rule_cnf x) else SOk SKIP.
+
+Definition rule_status_s (name : string) : sres status :=
+  match filter (fun x => String.eqb (rule_name x) name) (rf_rules prog) with
+  | [x] => rule_eval_s x
+  | [] => SUndef
+  | _ => SOut
+  end.
+
+End Bodies.
+
+Definition sev_bottom : sev := mkSev (fun _ _ => SOut) (fun _ _ => SOut) (fun _ => SOut).
+
+Fixpoint run (n : nat) : sev :=
+  match n with
+  | O => sev_bottom
+  | S n' => let r := run n' in mkSev (query_s r) (cnf_s r) (rule_status_s r)
+  end.
+
+Definition spec_rule (n : nat) (name : string) : sres status := sv_rule (run n) name.
 
 (* the verdict table of a file: every rule (distinct names), and the file status *)
 Definition spec_file (n : nat) : sres (status * list (string * status)) :=
